@@ -33,6 +33,7 @@ _add("C04", "bounded symbolic verification over enumerated composite-shape confi
 _add("C08", "bounded symbolic verification in exact algebraic arithmetic (cos(pi/m) as algebraic atoms): involution, (s_i s_j)^m = 1, exact order, cosine-form preservation, reflection formula, canonical = dual, construction routes / naming agree, Tits-Vinberg and non-symmetric Cartan parameters, for rank 2 (labels 2..12, inf), 130 rank-3 triples and rank 4-5 samples (quick); hyperbolic_rep and triangle angles are outside (stated)")
 _add("C13", "bounded symbolic verification in H^2: origin_to targets, point_along with a symbolic signed distance t = ln E (exact side, distance and geodesic), reaching q along the unit tangent, the hyperbolic law of cosines for TangentVector.angle (arccos/arctan carried by cosine and sine), regular polygons with 3, 4, 6 sides (5, 7, 8 attempted in thorough) with symbolic interior angle and exact cos(pi/n)")
 _add("C18", "bounded symbolic verification of indefinite_orthogonalize (signatures p+q<=3), find_isometry (null-space stub), diagonalize_form (spectral eigh stub, n<=3), svd_kernel (SVD stub, rank patterns up to 3x3), circle_through / sphere_through and the arc-ordering helpers on arctan2 angles modelled as plane directions")
+_add("C14", "bounded symbolic verification of circle / sphere parameters in both conformal models: endpoints on the reported circle, orthogonality to the boundary, reported angles (arctan2 values as plane directions) point to the endpoints and bound the arc inside the model, degrees flag, enum vs string model, horospheres, subspace spheres (known finding for planes in H^3 reported as KNOWN-FINDING)")
 NA = {}
 def main():
     checks = []
